@@ -234,7 +234,10 @@ Proof.
   destruct (p_contracts p (code_hash i)) as [c0|] eqn:Ep.
   - inversion Hp; subst p2. destruct (HeC (code_hash i)) as [E|[E _]]; [|congruence].
     rewrite E, Ep. exists q. auto.
-  - destruct (code i) as [c|] eqn:Ec; [|discriminate]. inversion Hp; subst p2. clear Hp.
+  - destruct (code i) as [c|] eqn:Ec.
+    2:{ inversion Hp; subst p2. exists q. split; [destruct (p_contracts q (code_hash i)); reflexivity|].
+        split; [exact He|split; [reflexivity|auto]]. }
+    inversion Hp; subst p2. clear Hp.
     destruct (HeC (code_hash i)) as [E|[_ E]].
     + rewrite E, Ep. eexists. split; [reflexivity|]. split; [|split; [reflexivity|auto]].
       apply mkExt; auto. intros h. simpl. unfold fset. destruct (h =? code_hash i); [now left|apply HeC].
